@@ -91,6 +91,7 @@ type PureFunc struct {
 	Rec      bool
 	Abstract bool // no body: uninterpreted
 	Stable   bool // abstract function that does not depend on the object's state version
+	BVOnly   bool // body is bit-level: outside bit-vector mode the function is opaque
 	File     string
 	Line     int
 }
@@ -221,10 +222,14 @@ func ParseContractFile(path string) (*ContractFile, error) {
 			cf.Funcs = append(cf.Funcs, curF)
 			curL, curM = nil, nil
 		case w == "pure" || w == "abstract":
-			stable := false
+			stable, bvOnly := false, false
 			if strings.HasPrefix(rest, "stable ") {
 				stable = true
 				rest = strings.TrimSpace(strings.TrimPrefix(rest, "stable "))
+			}
+			if strings.HasPrefix(rest, "bv ") {
+				bvOnly = true
+				rest = strings.TrimSpace(strings.TrimPrefix(rest, "bv "))
 			}
 			pf, err := parsePure(strings.TrimSpace(strings.TrimPrefix(rest, "func")))
 			if err != nil {
@@ -232,6 +237,7 @@ func ParseContractFile(path string) (*ContractFile, error) {
 			}
 			pf.File, pf.Line = path, l.n
 			pf.Stable = stable
+			pf.BVOnly = bvOnly
 			if w == "abstract" {
 				pf.Abstract = true
 			}
